@@ -73,6 +73,13 @@ def prims():
     defjvp(fwd_boom, lambda g, ans, x: g)
 
     @primitive
+    def fwd_boom_always(x):
+        raise Fault("forward fault")
+
+    defvjp(fwd_boom_always, lambda ans, x: lambda g: g)
+    defjvp(fwd_boom_always, lambda g, ans, x: g)
+
+    @primitive
     def bwd_boom(x):
         return x * 1.0
 
@@ -103,7 +110,7 @@ def prims():
     import autograd
 
     defvjp(reentrant, lambda ans, x: lambda g: g * autograd.grad(lambda t: anp.sin(t))(x))
-    _P.update(state=state, fwd_boom=fwd_boom, bwd_boom=bwd_boom, reentrant=reentrant)
+    _P.update(state=state, fwd_boom=fwd_boom, bwd_boom=bwd_boom, reentrant=reentrant, fwd_boom_always=fwd_boom_always)
     return _P
 
 
@@ -168,7 +175,7 @@ def body(max_steps, c):
     try:
         for step in range(n_steps):
             kind = c.choice(["ok_call", "failing_call", "failing_call", "closure_fault", "closure_reuse", "reentrant", "canary", "closure_fault_ckpt",
-                             "mutate_result"])
+                             "mutate_result", "lazy_operator"])
             x0 = c.choice([0.7, 1.1, 1.6])
             if kind == "canary":
                 history.append(["canary"])
@@ -226,6 +233,39 @@ def body(max_steps, c):
                 if r1.shape != r1b.shape or not onp.array_equal(r1, r1b, equal_nan=True):
                     return fail("history_dependence", f"step {step}: VJP function of {tname} {inst.call.desc} gives a different answer when called again with "
                                 "the same cotangent", bucket("closure_reuse"), sample=sample)
+                continue
+            if kind == "lazy_operator":
+                # ONE operator object serves several calls that differ in their non-differentiated arguments (one of them fails when it
+                # is evaluated); the functions it returned are evaluated afterwards, in a drawn order: each is a function of ITS call only
+                history.append(["lazy_operator", x0])
+                fk = lambda t, k, s=1.0: anp.sin(t * k) * s if k > 0 else P["fwd_boom_always"](t)
+                order = c.perm(3)
+                for which in ("jvp", "vjp"):
+                    op = autograd.make_jvp(fk) if which == "jvp" else autograd.make_vjp(fk)
+                    calls = [(x0, 2.0, {}), (x0 + 0.3, 0.5, {"s": 3.0}), (x0 - 0.2, 1.5, {"s": -1.0})]
+                    handles = []
+                    for (t_, k_, kw_) in calls:
+                        handles.append(op(t_, k_, **kw_))
+                        try:
+                            bad = op(t_, -1.0)  # a call of the same operator that fails (at once for make_vjp, when evaluated for make_jvp)
+                            if which == "jvp":
+                                bad(1.0)
+                        except Fault:
+                            pass
+                    for i in order:
+                        t_, k_, kw_ = calls[i]
+                        s_ = kw_.get("s", 1.0)
+                        want_v, want_d = onp.sin(t_ * k_) * s_, k_ * onp.cos(t_ * k_) * s_
+                        if which == "jvp":
+                            val, tan = handles[i](1.0)
+                        else:
+                            vjp_, val = handles[i]
+                            tan = vjp_(1.0)
+                        if abs(float(val) - want_v) > 1e-12 or abs(float(tan) - want_d) > 1e-12:
+                            return fail("history_dependence", f"step {step}: call {i} of one make_{which} operator object, evaluated after later calls of the same "
+                                        f"object, gives ({float(val)!r}, {float(tan)!r}); its own arguments give ({want_v!r}, {want_d!r})",
+                                        bucket("lazy_operator"), sample=sample)
+                saw_deep_caught = True
                 continue
             if kind == "mutate_result":
                 # the caller owns what a differentiation returns: it updates the results in place (an optimiser step, masking, ...);
